@@ -64,6 +64,7 @@ class Harness:
         self.nontrivial = True
         self.covers_min = 1
         self.witness = False  # reachability twin: must FAIL
+        self.replay_stubs = []  # (file, anchor line prefix, statement injected right after it) for native replay
 
     @property
     def modpath(self):
@@ -93,16 +94,18 @@ def parse_harness_file(path):
         if m:
             k, v = m.group(1), m.group(2).strip()
             if k == "family":
-                family = dict(meta)
-                family["_macro"] = v
-                meta = {}
+                family = {"_macro": v}
                 continue
-            if k in ("functions", "assumes"):
-                meta.setdefault(k, []).append(v)
+            if k == "endfamily":
+                family = None
+                continue
+            tgt = family if family is not None else meta
+            if k in ("functions", "assumes", "replay_stub"):
+                tgt.setdefault(k, []).append(v)
             elif k in ("bounds", "desc"):
-                meta[k] = (meta.get(k, "") + " " + v).strip()
+                tgt[k] = (tgt.get(k, "") + " " + v).strip()
             else:
-                meta[k] = v
+                tgt[k] = v
             continue
         if s.startswith("#[kani::proof"):
             in_proof = True
@@ -143,6 +146,7 @@ def parse_harness_file(path):
                 continue
             if s.startswith("//@ endfamily") or s.startswith("//@endfamily"):
                 family = None
+                continue
     return out
 
 
@@ -161,6 +165,7 @@ def apply_meta(h, meta, attrs, path, attach):
     h.nontrivial = meta.get("nontrivial", "yes") != "no"
     h.witness = meta.get("witness", "no") == "yes"
     h.covers_min = int(meta.get("covers_min", "1"))
+    h.replay_stubs = [tuple(x.strip() for x in v.split("|")) for v in meta.get("replay_stub", [])]
 
 
 def load_registry():
@@ -194,7 +199,28 @@ unexpected_cfgs = { level = "allow" }
 """
 
 
-def build_overlay(scratch):
+def needed_files(hs):
+    """harness files to attach for this run: those holding a selected harness, their //@@ needs, common.rs"""
+    want = {"common.rs"} | {os.path.basename(h.file) for h in hs}
+    changed = True
+    while changed:
+        changed = False
+        for fn in list(want):
+            p = os.path.join(HARNESS_DIR, fn)
+            if not os.path.exists(p):
+                continue
+            with open(p) as f:
+                for ln in f:
+                    m = re.match(r"//@@\s*needs:\s*(.*)$", ln.strip())
+                    if m:
+                        for x in m.group(1).replace(",", " ").split():
+                            if x not in want:
+                                want.add(x)
+                                changed = True
+    return want
+
+
+def build_overlay(scratch, only_files=None):
     """Copy the current working tree's crate source and attach the harness modules."""
     ds = os.path.join(scratch, "ds")
     os.makedirs(ds)
@@ -207,6 +233,8 @@ def build_overlay(scratch):
     attach_map = {}
     for fn in sorted(os.listdir(HARNESS_DIR)):
         if not fn.endswith(".rs"):
+            continue
+        if only_files is not None and fn not in only_files:
             continue
         src = os.path.join(HARNESS_DIR, fn)
         dst = os.path.join(hdir, fn)
@@ -236,7 +264,7 @@ def build_overlay(scratch):
             if rel in attach_map:
                 new += "\n"
                 for hfn, dst in attach_map[rel]:
-                    new += '#[cfg(kani)] #[path = "%s"] mod verif_kani_%s;\n' % (dst, hfn[:-3])
+                    new += '#[cfg(kani)] #[path = "%s"] pub(crate) mod verif_kani_%s;\n' % (dst, hfn[:-3])
             if new != txt:
                 with open(p, "w") as f:
                     f.write(new)
@@ -337,7 +365,7 @@ class Runner:
     def _run(self, h, slot):
         tdir = os.path.join(self.scratch, "t%d" % slot)
         log = os.path.join(self.scratch, "log_%s.txt" % h.name)
-        z = "-Z concrete-playback --concrete-playback=print"
+        z = ""
         if h.stubs:
             z += " -Z stubbing"
         cmd = "cargo kani --harness %s --exact --target-dir %s %s" % (h.modpath, tdir, z)
@@ -345,6 +373,13 @@ class Runner:
         res = parse_kani(out)
         res.update({"harness": h.name, "rc": rc, "timed_out": timed_out, "wall_s": round(wall, 2), "log": log})
         res["class"], res["why"] = classify(h, res, out)
+        if res["class"] == "failed" and not h.witness:
+            # second run, only for failing harnesses: ask for the counterexample values
+            log2 = os.path.join(self.scratch, "log_%s_playback.txt" % h.name)
+            cmd2 = cmd + " -Z concrete-playback --concrete-playback=print"
+            rc2, to2, out2, wall2 = run_cmd(cmd2, self.ds, max(h.timeout * 3, 600), log2)
+            res["playback"] = parse_kani(out2)["playback"]
+            res["wall_s"] = round(wall + wall2, 2)
         return res
 
 
@@ -427,6 +462,19 @@ def native_replay(scratch, ds, h, tests, tag):
         return False, "no playback test generated"
     with open(hcopy, "w") as f:
         f.write(body)
+    # Kani stubs are not applied in a native build: re-create the ones that matter by injecting a
+    # `return <stub call>;` as the first statement of the stubbed function in the overlay copy
+    patched = {}
+    for (rel, anchor, inject) in h.replay_stubs:
+        p = os.path.join(ds, "src", rel)
+        with open(p) as f:
+            txt = f.read()
+        if anchor not in txt:
+            return False, {"build_error": "replay_stub anchor not found in %s: %s" % (rel, anchor)}
+        patched.setdefault(p, txt)
+        txt = txt.replace(anchor, anchor + "\n    #[cfg(kani)] { " + inject + " }\n", 1)
+        with open(p, "w") as f:
+            f.write(txt)
     try:
         tdir = os.path.join(scratch, "treplay_" + tag)
         log = os.path.join(scratch, "replay_%s_%s.txt" % (h.name, tag))
@@ -435,6 +483,9 @@ def native_replay(scratch, ds, h, tests, tag):
     finally:
         with open(hcopy, "w") as f:
             f.write(orig)
+        for p, txt in patched.items():
+            with open(p, "w") as f:
+                f.write(txt)
     failed = re.findall(r"^test (\S+) \.\.\. FAILED", out, re.M)
     passed = re.findall(r"^test (\S+) \.\.\. ok", out, re.M)
     panics = re.findall(r"panicked at ([^\n]*)\n([^\n]*)", out)
@@ -442,6 +493,9 @@ def native_replay(scratch, ds, h, tests, tag):
             "panics": [a.strip() + " :: " + b.strip() for a, b in panics][:6], "timed_out": to}
     if "error[" in out and not failed and not passed:
         summ["build_error"] = "\n".join(out.strip().splitlines()[-15:])
+    if any("kani::assume" in p or "assume should" in p.lower() for p in summ["panics"]):
+        summ["note"] = "a kani::assume failed natively: the solver's values do not describe a native execution"
+        return False, summ
     return bool(failed), summ
 
 
@@ -562,7 +616,15 @@ def main():
     scratch = tempfile.mkdtemp(prefix="dsverif.", dir="/var/tmp")
     keep = os.environ.get("VERIF_KEEP") == "1"
     try:
-        ds, srcdigest = build_overlay(scratch)
+        if replay:
+            with open(replay) as f:
+                rname = json.load(f)["harness"]
+            sel = [h for h in hs_all if h.name == rname]
+        else:
+            sel = [h for h in hs_all if prop in h.props and (tier == "thorough" or h.tier == "quick")]
+            if only:
+                sel = [h for h in sel if only in h.name]
+        ds, srcdigest = build_overlay(scratch, needed_files(sel))
         if replay:
             return do_replay(prop, replay, scratch, ds, hs_all)
         return do_check(prop, tier, seed, only, jobs, scratch, ds, srcdigest, hs_all)
